@@ -16,13 +16,16 @@ TS_LOCS = ["SCHEMA", "SCALAR", "OBJECT", "FIELD_DEFINITION", "ARGUMENT_DEFINITIO
 
 
 class Gen:
-    def __init__(self, rng, fragment_variables=False, hostile_strings=True, max_depth=4):
+    def __init__(self, rng, fragment_variables=False, hostile_strings=True, max_depth=4, const_violation=False):
         self.rng = rng
         self.fragvars = fragment_variables
         self.hostile = hostile_strings
         self.max_depth = max_depth
         self.out = []
         self.features = set()
+        # when set, exactly one value in a const position (variable defaults, directives of variable
+        # definitions, anything in a type-system document) becomes a variable: the text is invalid
+        self.const_violation = const_violation
 
     def emit(self, *toks):
         self.out.extend(toks)
@@ -45,6 +48,11 @@ class Gen:
             self.emit(L.quoted_string_text(self.rng, val))
 
     def value(self, const, depth=0):
+        if const and self.const_violation and "const-violation" not in self.features and self.chance(0.25):
+            self.emit("$")
+            self.name()
+            self.features.add("const-violation")
+            return
         r = self.rng.random()
         if depth >= self.max_depth:
             r = r * 0.7
@@ -385,8 +393,8 @@ class Gen:
                 open_block = self.type_system_definition()
 
 
-def gen_tokens(rng, start, fragment_variables=False, hostile_strings=True):
-    g = Gen(rng, fragment_variables, hostile_strings)
+def gen_tokens(rng, start, fragment_variables=False, hostile_strings=True, const_violation=False):
+    g = Gen(rng, fragment_variables, hostile_strings, const_violation=const_violation)
     if start == "executable":
         g.executable_document()
     elif start == "typesystem":
